@@ -12,7 +12,7 @@ import (
 
 func init() { Registry["C14"] = runC14 }
 
-const explanationC14 = "Decides structural necessary conditions of C14 — that the published schemas and the generated validators are two translations of the same ValidationExpr that agree keyword by keyword: (R14.1) every validation keyword is consumed by the three schema builders (JSON schema, OpenAPI v3 schemafier, OpenAPI v2 parameter validations) as it is by the validation code generator; (R14.2) keyword fidelity — each schema field is assigned from the like-named keyword (length keywords to minItems/maxItems for arrays and minLength/maxLength otherwise), and the v2 helpers set the inclusive/exclusive flag that belongs to the keyword, identically for parameters, headers and items; (R14.3) the generated guards use the comparison the schema keyword means (inclusive minimum ⇔ `<`, exclusive ⇔ `<=`, …; shared with C04/R04.3); (R14.4) required lists are built from the validation's Required filtered only by MustGenerate, and documented parameters take their required flag and location from the collection being walked (shared with C07/R07.4); (R14.5) the server decoder's must-validate decisions consult every collection and accumulate (shared with C04/R04.9), so that what the schema forbids is actually rejected; (R14.7) the accessors of HTTPEndpointExpr that feed both the server templates and the OpenAPI builders show no deviance lint. NOT decided: acceptance equivalence on values (needs execution of generated code and a schema validator)."
+const explanationC14 = "Decides structural necessary conditions of C14 — that the published schemas and the generated validators are two translations of the same ValidationExpr that agree keyword by keyword: (R14.1) every validation keyword is consumed by the three schema builders (JSON schema, OpenAPI v3 schemafier, OpenAPI v2 parameter validations) as it is by the validation code generator; (R14.2) keyword fidelity — each schema field is assigned from the like-named keyword (length keywords to minItems/maxItems for arrays and minLength/maxLength otherwise), and the v2 helpers set the inclusive/exclusive flag that belongs to the keyword, identically for parameters, headers and items; (R14.3) the generated guards use the comparison the schema keyword means (inclusive minimum ⇔ `<`, exclusive ⇔ `<=`, …; shared with C04/R04.3); (R14.4) required lists are built from the validation's Required filtered only by MustGenerate, and documented parameters take their required flag and location from the collection being walked (shared with C07/R07.4); (R14.5) the server decoder's must-validate decisions consult every collection and accumulate (shared with C04/R04.9), so that what the schema forbids is actually rejected; (R14.7) the accessors of HTTPEndpointExpr that feed both the server templates and the OpenAPI builders show no deviance lint. shared R13.6 (the copy of a validation carries each keyword to the like-named field, or server and document diverge). NOT decided: acceptance equivalence on values (needs execution of generated code and a schema validator)."
 
 func runC14(c *an.Ctx) string {
 	r141Consumes(c)
@@ -22,6 +22,7 @@ func runC14(c *an.Ctx) string {
 	r074Walkers(c)
 	r049MustValidate(c)
 	r147EndpointAccessors(c)
+	r136Exhaustive(c) // shared with C13 (rule id R13.6): server validators are generated from copies of the validations the documents are built from
 	return explanationC14
 }
 
